@@ -17,6 +17,9 @@ func genFault(r *Rng, approxLen int) string {
 		return fmt.Sprintf("s%d", r.Intn(approxLen+1))
 	case 3:
 		return fmt.Sprintf("f%d", []int{1, 2047, 2048, 2049, 4096}[r.Intn(5)])
+	case 4:
+		// every Write on this connection takes at most k bytes and reports no error
+		return fmt.Sprintf("S%d", []int{0, 1, 7, 64, 1000}[r.Intn(5)])
 	}
 	return "-"
 }
@@ -108,7 +111,7 @@ func genSendTok(r *Rng) string {
 	return a.token(nil)
 }
 
-var respModes = []string{"match", "match", "match", "other", "prefix", "emptymap", "emptyack", "extrabefore", "extraafter", "garbage", "nonmap",
+var respModes = []string{"match", "match", "match", "other", "prefix", "caseflip", "caseflip1", "padless", "spaced", "emptymap", "emptyack", "extrabefore", "extraafter", "garbage", "nonmap",
 	"binack", "trunc", "trailing", "eof", "sil", "dupack", "dupack2", "extralong", "extraafter", "extralong",
 	"extracut1", "extracut3", "extracut6", "extracut11", "extracut13", "extracut14"}
 var pongModes = []string{"honest", "honest", "honest", "authfalse", "wrongkey", "wrongsalt", "wrongnonce", "wronghost", "reflect", "replay",
@@ -128,6 +131,10 @@ func genTcpOp(r *Rng, st *int) string {
 		f := "-"
 		if r.Chance(10) {
 			f = genFault(r, 100)
+		}
+		if r.Chance(45) {
+			// half of the handshakes are honest ones, so that the operations after them run in transport phase
+			return "HS(std;honest;-)"
 		}
 		hm := heloModes[r.Intn(len(heloModes))]
 		if r.Chance(12) {
@@ -190,7 +197,7 @@ func genCfg(r *Rng) string {
 	if r.Chance(55) {
 		key = hx([]byte([]string{"secret", "k", "another shared key", ""}[r.Intn(4)]))
 		if key == "-" {
-			key = "-" // nil and empty keys both mean: no handshake
+			key = "e" // the empty key: configured (not nil), so a handshake is required
 		}
 	}
 	host := []string{"client.example", "", "server.example", "h"}[r.Intn(4)]
